@@ -40,12 +40,29 @@ def gen_frame(rng):
     return {'nrows': n, 'cols': cols}
 
 
-def mutate(rng, fr, prec=None):
+def with_index(df, how):
+    """row labels other than 0..n-1 (a filtered / concatenated / re-labelled frame): rows correspond by position"""
+    n = len(df)
+    if not how or n == 0:
+        return df
+    df = df.copy()
+    if how == 'offset':
+        df.index = range(5, 5 + n)
+    elif how == 'reversed':
+        df.index = range(n - 1, -1, -1)
+    elif how == 'strings':
+        df.index = ['r%d' % i for i in range(n)]
+    elif how == 'duplicates':
+        df.index = [i // 2 for i in range(n)]
+    return df
+
+
+def mutate(rng, fr, prec=None, force=None):
     """one mutation of a copy; returns (frame, kind, detail)"""
     g = copy.deepcopy(fr)
     kinds = ['none', 'value', 'value-small', 'value-within', 'value-beyond', 'name', 'dtype', 'position', 'rows',
              'extra', 'drop', 'row-filtered-out', 'null-in-condition-column']
-    kind = rng.choice(kinds)
+    kind = force or rng.choice(kinds)
     if kind in ('value-within', 'value-beyond'):
         # the reference cell is put on the grid of the precision, the actual one 0.2 / 0.7 grid steps above it
         p = 6 if prec is None else prec
@@ -173,7 +190,7 @@ class C05(core.Prop):
         'extra_column_fails', 'wrong_type_fails', 'wrong_order_fails', 'value_difference_fails', 'swap_changes_order',
         'roundTo_close', 'roundTo_grid', 'far_apart_differ', 'cellsEqual_far', 'cellsEqual_refl', 'cellsEqual_null',
         'cellsEqual_symm', 'cellsEqual_near_grid']]
-    quick_n = 400
+    quick_n = 700
     thorough_n = 12000
     rule = ('cases: a reference frame of 1..4 columns x 0..6 rows over 15 dtype families with nulls, and an actual frame '
             'that is a copy with one mutation (none / one value / one value by less than the precision / a name / a '
@@ -209,7 +226,20 @@ class C05(core.Prop):
                             [[2 * rng.randint(-50, 50) + 1, 2], [5 * (2 * rng.randint(-40, 40) + 1), 8]]}
         ref = gen_frame(rng)
         precision = rng.choice([None, None, 0, 0, 1, 2, 6, 10])
-        act, kind, detail = mutate(rng, ref, precision)
+        force = None
+        if rng.random() < 0.2:
+            # the clause about rounding: a float column is made sure of, and one cell is moved by less / more than a rounding step
+            if not any(c['fam'] in ('float64', 'Float64') for c in ref['cols']):
+                if ref['nrows'] == 0:
+                    ref['nrows'] = 2
+                    for c in ref['cols']:
+                        c['cells'] = cx.gen_cells(rng, c['fam'], 2)
+                        c['cells'] = [None if (isinstance(x, float) and math.isinf(x)) else x for x in c['cells']]
+                fam = rng.choice(['float64', 'float64', 'Float64'])
+                ref['cols'].append({'name': 'c%d' % len(ref['cols']), 'fam': fam,
+                                    'cells': [rng.randint(-50, 50) / 4 for _ in range(ref['nrows'])]})
+            force = rng.choice(['value-within', 'value-beyond'])
+        act, kind, detail = mutate(rng, ref, precision, force)
 
         def flag():
             r = rng.random()
@@ -229,6 +259,8 @@ class C05(core.Prop):
                 'condition': 'first-col-notnull' if kind in ('row-filtered-out', 'null-in-condition-column') and rng.random() < 0.8
                 else rng.choice([None, None, None, 'first-col-notnull']),
                 'precision': precision,
+                'act_index': rng.choice([None, None, None, None, 'offset', 'reversed', 'strings', 'duplicates']),
+                'ref_index': rng.choice([None, None, None, None, None, None, 'offset', 'duplicates']),
                 'type_matching': rng.choice(LEVELS),
                 'entry': rng.choice(['memory', 'memory', 'parquet', 'csv'])}
 
@@ -298,7 +330,7 @@ class C05(core.Prop):
             return self._obs
         self._obs_key, self._obs = key, None
         try:
-            ref_df, act_df = cx.to_df(case['ref']), cx.to_df(case['act'])
+            ref_df, act_df = with_index(cx.to_df(case['ref']), case.get('ref_index')), with_index(cx.to_df(case['act']), case.get('act_index'))
         except Exception:
             return None
         seen = {'missing': [], 'extra': [], 'wrong_types': [], 'wrong_ordering': False}
@@ -390,8 +422,8 @@ class C05(core.Prop):
         d = tempfile.mkdtemp(prefix='c05_')
         try:
             try:
-                ref_df = cx.to_df(case['ref'])
-                act_df = cx.to_df(case['act'])
+                ref_df = with_index(cx.to_df(case['ref']), case.get('ref_index'))
+                act_df = with_index(cx.to_df(case['act']), case.get('act_index'))
             except Exception:
                 return F
             kw = dict(check_data=self._flag(case['check_data'], None), check_types=self._flag(case['check_types'], None),
